@@ -2,8 +2,1400 @@ import PsaDhcp.Model.Verdict
 import PsaDhcp.Model.System
 import PsaDhcp.Spec.ServerSpec
 import PsaDhcp.Spec.Inet
+import PsaDhcp.Spec.ReplySpec
 import PsaDhcp.Proofs.Ipdb
 import PsaDhcp.Proofs.Wire
 import PsaDhcp.Proofs.Dhcp
 namespace PsaDhcp.Proofs.Decision
+open PsaDhcp PsaDhcp.Spec
+
+
+/-- Opacity boundary for the kernel.  `generalize` leaves no binder in the final proof term
+(the β-redex it creates is reduced when metavariables are instantiated), so the kernel ends up
+comparing terms that mention e.g. `IPDB.updateClient S db t (some (Ip4.ofNat a)) …` concretely
+and, when unfolding a matcher, evaluates `Ip4.toNat _ < db.netFrom` by unary recursion on
+`16777216`.  Passing the abstraction through this lemma keeps a genuine `fun x => …` in the term. -/
+@[elab_as_elim]
+theorem opq {α : Sort u} {motive : α → Prop} (a : α) (h : ∀ x, motive x) : motive a := h a
+
+/-! ## the handler's decision, branch by branch -/
+
+section handleV
+variable {σ : Type} (S : Store σ) (c : SrvCfg) (db : IPDB σ) (rx : Rx) (o : HOracle)
+
+theorem handleV_drop (ht : todo c (getDuid S db o.t0 rx.msg.chaddr (decodeOptions rx.msg.options).clientIdentifier).1 rx = .drop) :
+    handleV S c db rx o = ((getDuid S db o.t0 rx.msg.chaddr (decodeOptions rx.msg.options).clientIdentifier).1, .silent) := by
+  unfold handleV
+  revert ht
+  refine opq (todo c (σ := σ)) ?_; intro tdo
+  refine opq (IPDB.updateClient S) ?_; intro upd
+  refine opq (IPDB.findIP S) ?_; intro fnd
+  refine opq (IPDB.lookupByDuid S) ?_; intro lk
+  refine opq Ip4.toNat ?_; intro tn
+  refine opq (getDuid S) ?_; intro gd
+  intro ht
+  dsimp only
+  rw [ht]
+
+theorem handleV_discover (ht : todo c (getDuid S db o.t0 rx.msg.chaddr (decodeOptions rx.msg.options).clientIdentifier).1 rx = .discover) :
+    let g := getDuid S db o.t0 rx.msg.chaddr (decodeOptions rx.msg.options).clientIdentifier
+    let f := g.1.findIP S o.t1 (decodeOptions rx.msg.options).requestedIP g.2 o.perm o.iters
+    (∀ a, f.2 = .ok a →
+      let u := f.1.updateClient S o.t2 (some (Ip4.ofNat a)) g.2 offerHoldNs
+      (u.2 = .ok () → handleV S c db rx o = (u.1, .offer a)) ∧
+      (u.2 ≠ .ok () → handleV S c db rx o = (u.1, .silent))) ∧
+    ((∀ a, f.2 ≠ .ok a) → handleV S c db rx o = (f.1, .silent)) := by
+  unfold handleV
+  revert ht
+  refine opq (todo c (σ := σ)) ?_; intro tdo
+  refine opq (IPDB.updateClient S) ?_; intro upd
+  refine opq (IPDB.findIP S) ?_; intro fnd
+  refine opq (IPDB.lookupByDuid S) ?_; intro lk
+  refine opq Ip4.toNat ?_; intro tn
+  refine opq (getDuid S) ?_; intro gd
+  intro ht
+  dsimp only
+  rw [ht]
+  dsimp only
+  generalize gd db o.t0 rx.msg.chaddr (decodeOptions rx.msg.options).clientIdentifier = g
+  generalize fnd g.1 o.t1 (decodeOptions rx.msg.options).requestedIP g.2 o.perm o.iters = f
+  rcases f with ⟨f1, e | a'⟩
+  · refine ⟨fun a h => (by cases h), fun _ => rfl⟩
+  · refine ⟨?_, fun h => absurd rfl (h a')⟩
+    intro a h
+    cases h
+    dsimp only
+    generalize upd f1 o.t2 (some (Ip4.ofNat a')) g.2 offerHoldNs = u
+    rcases u with ⟨u1, e | _⟩
+    · exact ⟨fun h => (by cases h), fun _ => rfl⟩
+    · exact ⟨fun _ => rfl, fun h => absurd rfl h⟩
+
+theorem handleV_request (want : Ip4) (ht : todo c (getDuid S db o.t0 rx.msg.chaddr (decodeOptions rx.msg.options).clientIdentifier).1 rx = .request want) :
+    let g := getDuid S db o.t0 rx.msg.chaddr (decodeOptions rx.msg.options).clientIdentifier
+    let l := g.1.lookupByDuid S o.t1 g.2
+    let u := l.1.updateClient S o.t2 (some (Ip4.ofNat want.toNat)) g.2 c.leaseNs
+    (l.2 = .ok want.toNat → o.probeFree = true → u.2 = .ok () → handleV S c db rx o = (u.1, .ack want.toNat)) ∧
+    (l.2 = .ok want.toNat → o.probeFree = true → u.2 ≠ .ok () → handleV S c db rx o = (u.1, .silent)) ∧
+    (¬ (l.2 = .ok want.toNat ∧ o.probeFree = true) → handleV S c db rx o = (l.1, .nak)) := by
+  unfold handleV
+  revert ht
+  refine opq (todo c (σ := σ)) ?_; intro tdo
+  refine opq (IPDB.updateClient S) ?_; intro upd
+  refine opq (IPDB.findIP S) ?_; intro fnd
+  refine opq (IPDB.lookupByDuid S) ?_; intro lk
+  refine opq Ip4.toNat ?_; intro tn
+  refine opq (getDuid S) ?_; intro gd
+  intro ht
+  dsimp only
+  rw [ht]
+  dsimp only
+  generalize gd db o.t0 rx.msg.chaddr (decodeOptions rx.msg.options).clientIdentifier = g
+  generalize lk g.1 o.t1 g.2 = l
+  rcases l with ⟨l1, e | lease⟩
+  · dsimp only
+    refine ⟨fun h => (by cases h), fun h => (by cases h), fun _ => rfl⟩
+  · dsimp only
+    by_cases h1 : tn want ≠ lease
+    · rw [if_pos h1]
+      refine ⟨fun h => ?_, fun h => ?_, fun _ => rfl⟩ <;> (cases h; exact absurd rfl h1)
+    · rw [if_neg h1]
+      have h1' : tn want = lease := Decidable.not_not.1 h1
+      subst h1'
+      by_cases h2 : ¬ o.probeFree = true
+      · rw [if_pos h2]
+        exact ⟨fun _ h => absurd h h2, fun _ h => absurd h h2, fun _ => rfl⟩
+      · rw [if_neg h2]
+        generalize upd l1 o.t2 (some (Ip4.ofNat (tn want))) g.2 c.leaseNs = u
+        rcases u with ⟨u1, e | _⟩
+        · exact ⟨fun _ _ h => (by cases h), fun _ _ _ => rfl, fun h => absurd ⟨rfl, Decidable.not_not.1 h2⟩ h⟩
+        · exact ⟨fun _ _ _ => rfl, fun _ _ h => absurd rfl h, fun h => absurd ⟨rfl, Decidable.not_not.1 h2⟩ h⟩
+
+end handleV
+/-! ## the guards -/
+
+theorem todo_request_iff {σ : Type} (c : SrvCfg) (db : IPDB σ) (rx : Rx) (want : Ip4)
+    (hreq : (decodeOptions rx.msg.options).messageType = 3) :
+    todo c db rx = .request want ↔
+      rx.msg.chaddr ≠ c.selfMac ∧ (decodeOptions rx.msg.options).requestedIP ≠ some c.selfIp ∧
+      desired (classify c.selfIp rx.dst (decodeOptions rx.msg.options).serverIdentifier (decodeOptions rx.msg.options).requestedIP)
+        rx.src (decodeOptions rx.msg.options).requestedIP = some want ∧
+      db.inManagedRange (some want) = true := by
+  unfold todo
+  refine opq (IPDB.inManagedRange (σ := σ)) ?_; intro imr
+  dsimp only
+  generalize decodeOptions rx.msg.options = opts at hreq ⊢
+  generalize desired (classify c.selfIp rx.dst opts.serverIdentifier opts.requestedIP) rx.src opts.requestedIP = dz
+  by_cases hmac : c.selfMac = rx.msg.chaddr
+  · rw [if_pos hmac]
+    exact ⟨fun h => (by cases h), fun h => absurd hmac.symm h.1⟩
+  · rw [if_neg hmac]
+    by_cases hself : opts.requestedIP = some c.selfIp
+    · rw [if_pos hself]
+      exact ⟨fun h => (by cases h), fun h => absurd hself h.2.1⟩
+    · rw [if_neg hself, hreq, if_neg (by decide), if_pos rfl]
+      cases dz with
+      | none => exact ⟨fun h => (by cases h), fun h => (by cases h.2.2.1)⟩
+      | some w =>
+        dsimp only
+        by_cases hin : imr db (some w) = true
+        · rw [if_pos hin]
+          constructor
+          · intro h; cases h; exact ⟨fun h => hmac h.symm, hself, rfl, hin⟩
+          · intro h; cases h.2.2.1; rfl
+        · rw [if_neg hin]
+          constructor
+          · intro h; cases h
+          · intro h; cases h.2.2.1; exact absurd h.2.2.2 hin
+
+theorem todo_not_discover {σ : Type} (c : SrvCfg) (db : IPDB σ) (rx : Rx)
+    (hreq : (decodeOptions rx.msg.options).messageType = 3) : todo c db rx ≠ .discover := by
+  unfold todo
+  refine opq (IPDB.inManagedRange (σ := σ)) ?_; intro imr
+  dsimp only
+  generalize decodeOptions rx.msg.options = opts at hreq ⊢
+  generalize desired (classify c.selfIp rx.dst opts.serverIdentifier opts.requestedIP) rx.src opts.requestedIP = dz
+  rw [hreq, if_neg (by decide : ¬ (3 : UInt8) = 1), if_pos rfl]
+  split
+  · intro h; cases h
+  · split
+    · intro h; cases h
+    · cases dz with
+      | none => intro h; cases h
+      | some w => dsimp only; split <;> (intro h; cases h)
+
+theorem todo_drop_or_request {σ : Type} (c : SrvCfg) (db : IPDB σ) (rx : Rx)
+    (hreq : (decodeOptions rx.msg.options).messageType = 3) :
+    todo c db rx = .drop ∨ ∃ want, todo c db rx = .request want := by
+  cases h : todo c db rx with
+  | drop => exact Or.inl rfl
+  | discover => exact absurd h (todo_not_discover c db rx hreq)
+  | request w => exact Or.inr ⟨w, rfl⟩
+
+/-! ## C04 -/
+
+theorem handle_eq_handleV {σ : Type} (S : Store σ) (c : SrvCfg) (db : IPDB σ) (rx : Rx) (o : HOracle) :
+    handle S c db rx o = ((handleV S c db rx o).1, (handleV S c db rx o).2.frame c rx.msg) := by
+  unfold handle handleV
+  refine opq (IPDB.updateClient S) ?_; intro upd
+  refine opq (IPDB.findIP S) ?_; intro fnd
+  refine opq (IPDB.lookupByDuid S) ?_; intro lk
+  refine opq Ip4.toNat ?_; intro tn
+  refine opq (getDuid S) ?_; intro gd
+  refine opq (todo c (σ := σ)) ?_; intro tdo
+  dsimp only
+  generalize gd db o.t0 rx.msg.chaddr (decodeOptions rx.msg.options).clientIdentifier = g
+  cases tdo g.1 rx with
+  | drop => rfl
+  | discover =>
+    dsimp only
+    generalize fnd g.1 o.t1 (decodeOptions rx.msg.options).requestedIP g.2 o.perm o.iters = f
+    rcases f with ⟨f1, e | a⟩
+    · rfl
+    · dsimp only
+      generalize upd f1 o.t2 (some (Ip4.ofNat a)) g.2 offerHoldNs = u
+      rcases u with ⟨u1, e | _⟩ <;> rfl
+  | request want =>
+    dsimp only
+    generalize lk g.1 o.t1 g.2 = l
+    rcases l with ⟨l1, e | lease⟩
+    · rfl
+    · dsimp only
+      by_cases h1 : tn want ≠ lease
+      · rw [if_pos h1, if_pos h1]; rfl
+      · rw [if_neg h1, if_neg h1]
+        by_cases h2 : ¬ o.probeFree = true
+        · rw [if_pos h2, if_pos h2]; rfl
+        · rw [if_neg h2, if_neg h2]
+          generalize upd l1 o.t2 (some (Ip4.ofNat lease)) g.2 c.leaseNs = u
+          rcases u with ⟨u1, e | _⟩ <;> rfl
+
+theorem ack_iff {σ : Type} (S : Store σ) (c : SrvCfg) (db : IPDB σ) (rx : Rx) (o : HOracle) (a : Nat)
+    (hreq : (decodeOptions rx.msg.options).messageType = 3) :
+    (handleV S c db rx o).2 = .ack a ↔
+      (let opts := decodeOptions rx.msg.options
+       let g := getDuid S db o.t0 rx.msg.chaddr opts.clientIdentifier
+       rx.msg.chaddr ≠ c.selfMac ∧ opts.requestedIP ≠ some c.selfIp ∧
+       ∃ want, desired (classify c.selfIp rx.dst opts.serverIdentifier opts.requestedIP) rx.src opts.requestedIP = some want ∧
+         g.1.inManagedRange (some want) = true ∧ want.toNat = a ∧
+         (g.1.lookupByDuid S o.t1 g.2).2 = .ok a ∧ o.probeFree = true ∧
+         ((g.1.lookupByDuid S o.t1 g.2).1.updateClient S o.t2 (some (Ip4.ofNat a)) g.2 c.leaseNs).2 = .ok ()) := by
+  constructor
+  · intro h
+    rcases todo_drop_or_request c (getDuid S db o.t0 rx.msg.chaddr (decodeOptions rx.msg.options).clientIdentifier).1 rx hreq
+      with ht | ⟨want, ht⟩
+    · rw [handleV_drop S c db rx o ht] at h; cases h
+    · obtain ⟨hA, hB, hC⟩ := handleV_request S c db rx o want ht
+      obtain ⟨t1, t2, t3, t4⟩ := (todo_request_iff c _ rx want hreq).1 ht
+      by_cases hl : ((getDuid S db o.t0 rx.msg.chaddr (decodeOptions rx.msg.options).clientIdentifier).1.lookupByDuid S o.t1
+          (getDuid S db o.t0 rx.msg.chaddr (decodeOptions rx.msg.options).clientIdentifier).2).2 = .ok want.toNat ∧ o.probeFree = true
+      · by_cases hu : (((getDuid S db o.t0 rx.msg.chaddr (decodeOptions rx.msg.options).clientIdentifier).1.lookupByDuid S o.t1
+            (getDuid S db o.t0 rx.msg.chaddr (decodeOptions rx.msg.options).clientIdentifier).2).1.updateClient S o.t2
+            (some (Ip4.ofNat want.toNat)) (getDuid S db o.t0 rx.msg.chaddr (decodeOptions rx.msg.options).clientIdentifier).2 c.leaseNs).2 = .ok ()
+        · rw [hA hl.1 hl.2 hu] at h
+          have ha : want.toNat = a := by injection h
+          subst ha
+          exact ⟨t1, t2, want, t3, t4, rfl, hl.1, hl.2, hu⟩
+        · rw [hB hl.1 hl.2 hu] at h; cases h
+      · rw [hC hl] at h; cases h
+  · rintro ⟨t1, t2, want, t3, t4, ha, hl, hp, hu⟩
+    subst ha
+    have ht := (todo_request_iff c _ rx want hreq).2 ⟨t1, t2, t3, t4⟩
+    rw [(handleV_request S c db rx o want ht).1 hl hp hu]
+
+theorem request_never_offered {σ : Type} (S : Store σ) (c : SrvCfg) (db : IPDB σ) (rx : Rx) (o : HOracle) (a : Nat)
+    (hreq : (decodeOptions rx.msg.options).messageType = 3) : (handleV S c db rx o).2 ≠ .offer a := by
+  intro h
+  rcases todo_drop_or_request c (getDuid S db o.t0 rx.msg.chaddr (decodeOptions rx.msg.options).clientIdentifier).1 rx hreq
+    with ht | ⟨want, ht⟩
+  · rw [handleV_drop S c db rx o ht] at h; cases h
+  · obtain ⟨hA, hB, hC⟩ := handleV_request S c db rx o want ht
+    by_cases hl : ((getDuid S db o.t0 rx.msg.chaddr (decodeOptions rx.msg.options).clientIdentifier).1.lookupByDuid S o.t1
+        (getDuid S db o.t0 rx.msg.chaddr (decodeOptions rx.msg.options).clientIdentifier).2).2 = .ok want.toNat ∧ o.probeFree = true
+    · by_cases hu : (((getDuid S db o.t0 rx.msg.chaddr (decodeOptions rx.msg.options).clientIdentifier).1.lookupByDuid S o.t1
+          (getDuid S db o.t0 rx.msg.chaddr (decodeOptions rx.msg.options).clientIdentifier).2).1.updateClient S o.t2
+          (some (Ip4.ofNat want.toNat)) (getDuid S db o.t0 rx.msg.chaddr (decodeOptions rx.msg.options).clientIdentifier).2 c.leaseNs).2 = .ok ()
+      · rw [hA hl.1 hl.2 hu] at h; cases h
+      · rw [hB hl.1 hl.2 hu] at h; cases h
+    · rw [hC hl] at h; cases h
+
+/-- The statement without `hs` is false: `classify Ip4.bcast Ip4.bcast none none = .renewing`. -/
+theorem classify_table (self dst : Ip4) (sid req : Option Ip4) (hs : self ≠ Ip4.bcast) :
+    (classify self dst sid req = .selecting ↔ dst = Ip4.bcast ∧ sid = some self ∧ req ≠ none) ∧
+    (classify self dst sid req = .initReboot ↔ dst = Ip4.bcast ∧ sid = none ∧ req ≠ none) ∧
+    (classify self dst sid req = .renewing ↔ dst = self ∧ dst ≠ Ip4.bcast ∧ sid = none ∧ req = none) ∧
+    (classify self dst sid req = .rebinding ↔ dst = Ip4.bcast ∧ sid = none ∧ req = none) := by
+  unfold classify
+  repeat' split
+  all_goals simp_all
+
+theorem desired_ne_none (self dst src : Ip4) (sid req : Option Ip4) (h : classify self dst sid req ≠ .bogus) :
+    desired (classify self dst sid req) src req ≠ none := by
+  unfold classify at h ⊢
+  repeat' split
+  all_goals simp_all [desired]
+
+theorem desired_some_imp (self dst src : Ip4) (sid req : Option Ip4) (want : Ip4)
+    (h : desired (classify self dst sid req) src req = some want) :
+    (sid = none ∨ sid = some self) ∧ (dst = Ip4.bcast ∨ dst = self) := by
+  unfold classify at h
+  repeat' split at h
+  all_goals simp_all [desired]
+
+/-- Over the reference table `LookupClientByDuid` is a pure read. -/
+theorem getDuid_table_fst (db : IPDB Table) (t : Int) (hw cid : Bytes) : (getDuid tableStore db t hw cid).1 = db := by
+  unfold getDuid
+  generalize h : db.lookupByDuid tableStore t (sduid hw) = r
+  have h1 : r.1 = db := by rw [← h]; cases db; rfl
+  rcases r with ⟨r1, e | a⟩
+  · dsimp only at h1 ⊢; split <;> exact h1
+  · exact h1
+
+theorem silent_and_unchanged (c : SrvCfg) (db : IPDB Table) (rx : Rx) (o : HOracle)
+    (hreq : (decodeOptions rx.msg.options).messageType = 3)
+    (h : (let opts := decodeOptions rx.msg.options
+          (∃ s, opts.serverIdentifier = some s ∧ s ≠ c.selfIp) ∨
+          (∃ want, desired (classify c.selfIp rx.dst opts.serverIdentifier opts.requestedIP) rx.src opts.requestedIP = some want ∧
+             db.inManagedRange (some want) = false) ∨
+          (rx.dst ≠ Ip4.bcast ∧ rx.dst ≠ c.selfIp) ∨
+          rx.msg.chaddr = c.selfMac)) :
+    handleV tableStore c db rx o = (db, .silent) := by
+  have hg := getDuid_table_fst db o.t0 rx.msg.chaddr (decodeOptions rx.msg.options).clientIdentifier
+  have ht : todo c (getDuid tableStore db o.t0 rx.msg.chaddr (decodeOptions rx.msg.options).clientIdentifier).1 rx = .drop := by
+    rcases todo_drop_or_request c _ rx hreq with ht | ⟨want, ht⟩
+    · exact ht
+    · exfalso
+      obtain ⟨t1, t2, t3, t4⟩ := (todo_request_iff c _ rx want hreq).1 ht
+      obtain ⟨d1, d2⟩ := desired_some_imp _ _ _ _ _ _ t3
+      rw [hg] at t4
+      rcases h with ⟨s, hs, hne⟩ | ⟨w, hw, hf⟩ | ⟨h1, h2⟩ | h4
+      · rw [hs] at d1
+        rcases d1 with d1 | d1
+        · cases d1
+        · injection d1 with d1; exact hne d1
+      · rw [t3] at hw; injection hw with hw; subst hw
+        rw [t4] at hf; cases hf
+      · rcases d2 with d2 | d2
+        · exact h1 d2
+        · exact h2 d2
+      · exact t1 h4
+  rw [handleV_drop tableStore c db rx o ht, hg]
+
+theorem nak_when_not_bound {σ : Type} (S : Store σ) (c : SrvCfg) (db : IPDB σ) (rx : Rx) (o : HOracle) (want : Ip4)
+    (hreq : (decodeOptions rx.msg.options).messageType = 3)
+    (hmac : rx.msg.chaddr ≠ c.selfMac) (hself : (decodeOptions rx.msg.options).requestedIP ≠ some c.selfIp)
+    (hw : desired (classify c.selfIp rx.dst (decodeOptions rx.msg.options).serverIdentifier (decodeOptions rx.msg.options).requestedIP)
+            rx.src (decodeOptions rx.msg.options).requestedIP = some want)
+    (hin : (getDuid S db o.t0 rx.msg.chaddr (decodeOptions rx.msg.options).clientIdentifier).1.inManagedRange (some want) = true)
+    (hnb : let g := getDuid S db o.t0 rx.msg.chaddr (decodeOptions rx.msg.options).clientIdentifier
+           (g.1.lookupByDuid S o.t1 g.2).2 ≠ .ok want.toNat) :
+    (handleV S c db rx o).2 = .nak := by
+  have ht := (todo_request_iff c _ rx want hreq).2 ⟨hmac, hself, hw, hin⟩
+  rw [(handleV_request S c db rx o want ht).2.2 (fun h => hnb h.1)]
+
+/-! ## C08: the REQUEST-path probe -/
+
+theorem conflict_naked {σ : Type} (S : Store σ) (c : SrvCfg) (db : IPDB σ) (rx : Rx) (o : HOracle) (want : Ip4)
+    (h : o.probeFree = false)
+    (ht : todo c (getDuid S db o.t0 rx.msg.chaddr (decodeOptions rx.msg.options).clientIdentifier).1 rx = .request want) :
+    (handleV S c db rx o).2 = .nak := by
+  rw [(handleV_request S c db rx o want ht).2.2 (fun hh => by rw [h] at hh; cases hh.2)]
+
+theorem conflict_never_acked {σ : Type} (S : Store σ) (c : SrvCfg) (db : IPDB σ) (rx : Rx) (o : HOracle) (a : Nat)
+    (h : o.probeFree = false) : (handleV S c db rx o).2 ≠ .ack a := by
+  intro hv
+  cases ht : todo c (getDuid S db o.t0 rx.msg.chaddr (decodeOptions rx.msg.options).clientIdentifier).1 rx with
+  | drop => rw [handleV_drop S c db rx o ht] at hv; cases hv
+  | request want => rw [conflict_naked S c db rx o want h ht] at hv; cases hv
+  | discover =>
+    obtain ⟨hA, hC⟩ := handleV_discover S c db rx o ht
+    cases hf : ((getDuid S db o.t0 rx.msg.chaddr (decodeOptions rx.msg.options).clientIdentifier).1.findIP S o.t1
+        (decodeOptions rx.msg.options).requestedIP (getDuid S db o.t0 rx.msg.chaddr (decodeOptions rx.msg.options).clientIdentifier).2
+        o.perm o.iters).2 with
+    | error e =>
+      rw [hC (fun a' h' => by rw [hf] at h'; cases h')] at hv; cases hv
+    | ok a' =>
+      obtain ⟨h1, h2⟩ := hA a' hf
+      by_cases hu : (((getDuid S db o.t0 rx.msg.chaddr (decodeOptions rx.msg.options).clientIdentifier).1.findIP S o.t1
+          (decodeOptions rx.msg.options).requestedIP (getDuid S db o.t0 rx.msg.chaddr (decodeOptions rx.msg.options).clientIdentifier).2
+          o.perm o.iters).1.updateClient S o.t2 (some (Ip4.ofNat a'))
+          (getDuid S db o.t0 rx.msg.chaddr (decodeOptions rx.msg.options).clientIdentifier).2 offerHoldNs).2 = .ok ()
+      · rw [h1 hu] at hv; cases hv
+      · rw [h2 hu] at hv; cases hv
+
+
+/-! ## C08: `arpVerify`, `catchARPReply` -/
+
+theorem arpVerify_free_iff (chaddr : Bytes) (outcomes : List (Option Bytes)) :
+    arpVerify chaddr outcomes = true ↔
+      ((∀ x ∈ outcomes, x = none) ∨ ∃ pre mac post, outcomes = pre ++ some mac :: post ∧ (∀ x ∈ pre, x = none) ∧ mac = chaddr) := by
+  induction outcomes with
+  | nil => simp [arpVerify]
+  | cons x rest ih =>
+    cases x with
+    | none =>
+      rw [arpVerify, ih]
+      constructor
+      · rintro (h | ⟨pre, mac, post, rfl, hp, hm⟩)
+        · left
+          intro x hx
+          rcases List.mem_cons.1 hx with rfl | hx
+          · rfl
+          · exact h x hx
+        · right
+          refine ⟨none :: pre, mac, post, rfl, ?_, hm⟩
+          intro x hx
+          rcases List.mem_cons.1 hx with rfl | hx
+          · rfl
+          · exact hp x hx
+      · rintro (h | ⟨pre, mac, post, he, hp, hm⟩)
+        · left; intro x hx; exact h x (List.mem_cons_of_mem _ hx)
+        · right
+          cases pre with
+          | nil => simp at he
+          | cons p pre =>
+            simp only [List.cons_append, List.cons.injEq] at he
+            obtain ⟨rfl, rfl⟩ := he
+            exact ⟨pre, mac, post, rfl, fun x hx => hp x (List.mem_cons_of_mem _ hx), hm⟩
+    | some mac =>
+      simp only [arpVerify, decide_eq_true_eq]
+      constructor
+      · intro h; right; exact ⟨[], mac, rest, rfl, by simp, h⟩
+      · rintro (h | ⟨pre, mac', post, he, hp, hm⟩)
+        · have := h (some mac) List.mem_cons_self; cases this
+        · cases pre with
+          | nil =>
+            simp only [List.nil_append, List.cons.injEq, Option.some.injEq] at he
+            obtain ⟨rfl, rfl⟩ := he; exact hm
+          | cons p pre =>
+            simp only [List.cons_append, List.cons.injEq] at he
+            obtain ⟨rfl, rfl⟩ := he
+            have := hp (some mac) List.mem_cons_self; cases this
+
+theorem ofBytes_eq_some (x : Bytes) (t : Ip4) : Ip4.ofBytes? x = some t ↔ x = t.bytes := by
+  obtain ⟨a, b, c, d⟩ := t
+  unfold Ip4.ofBytes? Ip4.bytes
+  split
+  · simp
+  · rename_i h
+    constructor
+    · intro hh; cases hh
+    · intro hh; exact absurd hh (by intro hh; exact h _ _ _ _ hh)
+
+/-- One frame of `catchARPReply`. -/
+theorem catch_cons (target : Ip4) (f : Bytes) (rest : List Bytes) :
+    catchARPReply target (f :: rest) =
+      if 28 ≤ f.length ∧ (f.drop 14).take 4 = target.bytes then some ((f.drop 8).take 6) else catchARPReply target rest := by
+  rw [catchARPReply]
+  by_cases hl : 28 ≤ f.length
+  · have h28 : (f.take 28).length = 28 := by rw [List.length_take]; omega
+    cases hd : decodeARP (f.take 28) with
+    | error e => rw [Wire.decodeARP_eq _ h28] at hd; cases hd
+    | ok p =>
+      obtain ⟨-, hip, hmac⟩ := Wire.arp_sender_ip_offset _ _ hd
+      have e1 : ((f.take 28).drop 14).take 4 = (f.drop 14).take 4 := by
+        rw [List.drop_take, List.take_take]; congr 1
+      have e2 : ((f.take 28).drop 8).take 6 = (f.drop 8).take 6 := by
+        rw [List.drop_take, List.take_take]; congr 1
+      rw [e1] at hip; rw [e2] at hmac
+      dsimp only
+      rw [hip, hmac]
+      by_cases ht : (f.drop 14).take 4 = target.bytes
+      · rw [if_pos ((ofBytes_eq_some _ _).2 ht), if_pos ⟨hl, ht⟩]
+      · rw [if_neg (fun h => ht ((ofBytes_eq_some _ _).1 h)), if_neg (fun h => ht h.2)]
+  · rw [Wire.decodeARP_short _ (by rw [List.length_take]; omega), if_neg (fun h => hl h.1)]
+
+theorem probe_times_out (target : Ip4) (frames : List Bytes)
+    (h : ∀ f ∈ frames, f.length < 28 ∨ ((f.drop 14).take 4) ≠ target.bytes) : catchARPReply target frames = none := by
+  induction frames with
+  | nil => rfl
+  | cons f rest ih =>
+    rw [catch_cons, if_neg, ih (fun g hg => h g (List.mem_cons_of_mem _ hg))]
+    rintro ⟨h1, h2⟩
+    rcases h f List.mem_cons_self with h3 | h3
+    · omega
+    · exact h3 h2
+
+theorem only_sender_ip_counts (target : Ip4) (frames : List Bytes) (mac : Bytes) :
+    catchARPReply target frames = some mac ↔
+      ∃ pre f post, frames = pre ++ f :: post ∧ 28 ≤ f.length ∧ ((f.drop 14).take 4) = target.bytes ∧
+        mac = (f.drop 8).take 6 ∧ ∀ g ∈ pre, g.length < 28 ∨ ((g.drop 14).take 4) ≠ target.bytes := by
+  induction frames with
+  | nil =>
+    constructor
+    · intro h; cases h
+    · rintro ⟨pre, f, post, he, -⟩; cases pre <;> cases he
+  | cons f rest ih =>
+    rw [catch_cons]
+    by_cases hit : 28 ≤ f.length ∧ (f.drop 14).take 4 = target.bytes
+    · rw [if_pos hit]
+      constructor
+      · intro h; injection h with h
+        exact ⟨[], f, rest, rfl, hit.1, hit.2, h.symm, by simp⟩
+      · rintro ⟨pre, f', post, he, h1, h2, h3, h4⟩
+        cases pre with
+        | nil =>
+          simp only [List.nil_append, List.cons.injEq] at he
+          obtain ⟨rfl, rfl⟩ := he; rw [h3]
+        | cons p pre =>
+          simp only [List.cons_append, List.cons.injEq] at he
+          obtain ⟨rfl, rfl⟩ := he
+          rcases h4 f List.mem_cons_self with h5 | h5
+          · omega
+          · exact absurd hit.2 h5
+    · rw [if_neg hit, ih]
+      constructor
+      · rintro ⟨pre, f', post, rfl, h1, h2, h3, h4⟩
+        refine ⟨f :: pre, f', post, rfl, h1, h2, h3, ?_⟩
+        intro g hg
+        rcases List.mem_cons.1 hg with rfl | hg
+        · by_cases hl : 28 ≤ g.length
+          · exact Or.inr (fun h => hit ⟨hl, h⟩)
+          · exact Or.inl (by omega)
+        · exact h4 g hg
+      · rintro ⟨pre, f', post, he, h1, h2, h3, h4⟩
+        cases pre with
+        | nil =>
+          simp only [List.nil_append, List.cons.injEq] at he
+          obtain ⟨rfl, rfl⟩ := he
+          exact absurd ⟨h1, h2⟩ hit
+        | cons p pre =>
+          simp only [List.cons_append, List.cons.injEq] at he
+          obtain ⟨rfl, rfl⟩ := he
+          exact ⟨pre, f', post, rfl, h1, h2, h3, fun g hg => h4 g (List.mem_cons_of_mem _ hg)⟩
+
+/-! ## inverting a verdict; C08 `offered_was_probed_free`, C07 `advertised_is_reserved` -/
+
+section
+variable {σ : Type} (S : Store σ) (c : SrvCfg) (db : IPDB σ) (rx : Rx) (o : HOracle)
+
+/-- What an OFFER verdict tells about the run. -/
+theorem offer_inv (a : Nat) (h : (handleV S c db rx o).2 = .offer a) :
+    let g := getDuid S db o.t0 rx.msg.chaddr (decodeOptions rx.msg.options).clientIdentifier
+    let f := g.1.findIP S o.t1 (decodeOptions rx.msg.options).requestedIP g.2 o.perm o.iters
+    let u := f.1.updateClient S o.t2 (some (Ip4.ofNat a)) g.2 offerHoldNs
+    todo c g.1 rx = .discover ∧ f.2 = .ok a ∧ u.2 = .ok () ∧ handleV S c db rx o = (u.1, .offer a) := by
+  dsimp only
+  cases ht : todo c (getDuid S db o.t0 rx.msg.chaddr (decodeOptions rx.msg.options).clientIdentifier).1 rx with
+  | drop => rw [handleV_drop S c db rx o ht] at h; cases h
+  | request want =>
+    exfalso
+    obtain ⟨hA, hB, hC⟩ := handleV_request S c db rx o want ht
+    by_cases hl : ((getDuid S db o.t0 rx.msg.chaddr (decodeOptions rx.msg.options).clientIdentifier).1.lookupByDuid S o.t1 (getDuid S db o.t0 rx.msg.chaddr (decodeOptions rx.msg.options).clientIdentifier).2).2 = .ok want.toNat ∧ o.probeFree = true
+    · by_cases hu : (((getDuid S db o.t0 rx.msg.chaddr (decodeOptions rx.msg.options).clientIdentifier).1.lookupByDuid S o.t1 (getDuid S db o.t0 rx.msg.chaddr (decodeOptions rx.msg.options).clientIdentifier).2).1.updateClient S o.t2 (some (Ip4.ofNat want.toNat)) (getDuid S db o.t0 rx.msg.chaddr (decodeOptions rx.msg.options).clientIdentifier).2 c.leaseNs).2 = .ok ()
+      · rw [hA hl.1 hl.2 hu] at h; cases h
+      · rw [hB hl.1 hl.2 hu] at h; cases h
+    · rw [hC hl] at h; cases h
+  | discover =>
+    obtain ⟨hA, hC⟩ := handleV_discover S c db rx o ht
+    cases hf : ((getDuid S db o.t0 rx.msg.chaddr (decodeOptions rx.msg.options).clientIdentifier).1.findIP S o.t1 (decodeOptions rx.msg.options).requestedIP (getDuid S db o.t0 rx.msg.chaddr (decodeOptions rx.msg.options).clientIdentifier).2 o.perm o.iters).2 with
+    | error e => rw [hC (fun a' h' => by rw [hf] at h'; cases h')] at h; cases h
+    | ok a' =>
+      obtain ⟨h1, h2⟩ := hA a' hf
+      by_cases hu : (((getDuid S db o.t0 rx.msg.chaddr (decodeOptions rx.msg.options).clientIdentifier).1.findIP S o.t1 (decodeOptions rx.msg.options).requestedIP (getDuid S db o.t0 rx.msg.chaddr (decodeOptions rx.msg.options).clientIdentifier).2 o.perm o.iters).1.updateClient S o.t2 (some (Ip4.ofNat a')) (getDuid S db o.t0 rx.msg.chaddr (decodeOptions rx.msg.options).clientIdentifier).2 offerHoldNs).2 = .ok ()
+      · have h3 := h1 hu
+        rw [h3] at h
+        have : a' = a := by injection h
+        subst this
+        exact ⟨rfl, rfl, hu, h3⟩
+      · rw [h2 hu] at h; cases h
+
+/-- What an ACK verdict tells about the run. -/
+theorem ack_inv (a : Nat) (h : (handleV S c db rx o).2 = .ack a) :
+    let g := getDuid S db o.t0 rx.msg.chaddr (decodeOptions rx.msg.options).clientIdentifier
+    let l := g.1.lookupByDuid S o.t1 g.2
+    let u := l.1.updateClient S o.t2 (some (Ip4.ofNat a)) g.2 c.leaseNs
+    ∃ want : Ip4, todo c g.1 rx = .request want ∧ want.toNat = a ∧ l.2 = .ok a ∧ o.probeFree = true ∧ u.2 = .ok () ∧
+      handleV S c db rx o = (u.1, .ack a) := by
+  dsimp only
+  cases ht : todo c (getDuid S db o.t0 rx.msg.chaddr (decodeOptions rx.msg.options).clientIdentifier).1 rx with
+  | drop => rw [handleV_drop S c db rx o ht] at h; cases h
+  | discover =>
+    exfalso
+    obtain ⟨hA, hC⟩ := handleV_discover S c db rx o ht
+    cases hf : ((getDuid S db o.t0 rx.msg.chaddr (decodeOptions rx.msg.options).clientIdentifier).1.findIP S o.t1 (decodeOptions rx.msg.options).requestedIP (getDuid S db o.t0 rx.msg.chaddr (decodeOptions rx.msg.options).clientIdentifier).2 o.perm o.iters).2 with
+    | error e => rw [hC (fun a' h' => by rw [hf] at h'; cases h')] at h; cases h
+    | ok a' =>
+      obtain ⟨h1, h2⟩ := hA a' hf
+      by_cases hu : (((getDuid S db o.t0 rx.msg.chaddr (decodeOptions rx.msg.options).clientIdentifier).1.findIP S o.t1 (decodeOptions rx.msg.options).requestedIP (getDuid S db o.t0 rx.msg.chaddr (decodeOptions rx.msg.options).clientIdentifier).2 o.perm o.iters).1.updateClient S o.t2
+          (some (Ip4.ofNat a')) (getDuid S db o.t0 rx.msg.chaddr (decodeOptions rx.msg.options).clientIdentifier).2 offerHoldNs).2 = .ok ()
+      · rw [h1 hu] at h; cases h
+      · rw [h2 hu] at h; cases h
+  | request want =>
+    obtain ⟨hA, hB, hC⟩ := handleV_request S c db rx o want ht
+    by_cases hl : ((getDuid S db o.t0 rx.msg.chaddr (decodeOptions rx.msg.options).clientIdentifier).1.lookupByDuid S o.t1 (getDuid S db o.t0 rx.msg.chaddr (decodeOptions rx.msg.options).clientIdentifier).2).2 = .ok want.toNat ∧ o.probeFree = true
+    · by_cases hu : (((getDuid S db o.t0 rx.msg.chaddr (decodeOptions rx.msg.options).clientIdentifier).1.lookupByDuid S o.t1 (getDuid S db o.t0 rx.msg.chaddr (decodeOptions rx.msg.options).clientIdentifier).2).1.updateClient S o.t2 (some (Ip4.ofNat want.toNat)) (getDuid S db o.t0 rx.msg.chaddr (decodeOptions rx.msg.options).clientIdentifier).2 c.leaseNs).2 = .ok ()
+      · have h3 := hA hl.1 hl.2 hu
+        rw [h3] at h
+        have : want.toNat = a := by injection h
+        subst this
+        exact ⟨want, rfl, rfl, hl.1, hl.2, hu, h3⟩
+      · rw [hB hl.1 hl.2 hu] at h; cases h
+    · rw [hC hl] at h; cases h
+end
+
+theorem offered_was_probed_free (c : SrvCfg) (db : IPDB Table) (rx : Rx) (o : HOracle) (a : Nat)
+    (hoff : (handleV tableStore c db rx o).2 = .offer a)
+    (hnb : let g := getDuid tableStore db o.t0 rx.msg.chaddr (decodeOptions rx.msg.options).clientIdentifier
+           g.1.s.liveDuid o.t1 g.2 = none)
+    (hp : ∀ v ∈ o.perm, v ≤ db.dynTo - db.dynFrom) (hr : db.dynFrom ≤ db.dynTo ∧ db.dynTo < 4294967296) :
+    ∃ i, (o.iters i).free = true ∧ (o.iters i).cancelled = false := by
+  obtain ⟨-, hf, -, -⟩ := offer_inv tableStore c db rx o a hoff
+  have hg := getDuid_table_fst db o.t0 rx.msg.chaddr (decodeOptions rx.msg.options).clientIdentifier
+  dsimp only at hnb
+  rw [hg] at hf hnb
+  obtain ⟨-, -, -, i, h1, h2, -⟩ := Ipdb.find_result_eligible db o.t1 _ _ o.perm o.iters a hnb hp hr hf
+  exact ⟨i, h1, h2⟩
+
+theorem u8_ofNat_of_eq (x : UInt8) (n : Nat) (h : n = x.toNat) : UInt8.ofNat n = x := by
+  subst h; exact UInt8.ofNat_toNat
+
+theorem ip4_ofNat_toNat (x : Ip4) : Ip4.ofNat x.toNat = x := by
+  obtain ⟨a, b, c, d⟩ := x
+  have ha := a.toNat_lt; have hb := b.toNat_lt; have hc := c.toNat_lt; have hd := d.toNat_lt
+  simp only [Ip4.ofNat, Ip4.toNat, Ip4.mk.injEq]
+  refine ⟨u8_ofNat_of_eq _ _ ?_, u8_ofNat_of_eq _ _ ?_, u8_ofNat_of_eq _ _ ?_, u8_ofNat_of_eq _ _ ?_⟩ <;> omega
+
+theorem toUip_some_ok {σ : Type} (db : IPDB σ) (x : Ip4) (n : Nat) (h : db.toUip (some x) = .ok n) : n = x.toNat := by
+  revert h
+  unfold IPDB.toUip
+  refine opq Ip4.toNat ?_; intro tn
+  dsimp only
+  split
+  · intro h; cases h
+  · intro h; injection h with h; exact h.symm
+
+theorem lookupByDuid_table_fst (db : IPDB Table) (t : Int) (d : Duid) : (db.lookupByDuid tableStore t d).1 = db := by
+  cases db; rfl
+
+theorem leaseSecs_le (ns : Int) (hl : 0 ≤ ns) : (leaseSecs ns : Int) * 1000000000 ≤ ns := by
+  unfold leaseSecs; omega
+
+theorem leaseSecs_lt (ns : Int) (hl : 0 ≤ ns) (h : ns / 1000000000 < 4294967296) :
+    ns < ((leaseSecs ns : Int) + 1) * 1000000000 := by
+  unfold leaseSecs; omega
+
+theorem fst_of_eq {α β : Type} {p : α × β} {a : α} {b : β} (h : p = (a, b)) : p.1 = a := by rw [h]
+
+theorem advertised_is_reserved (c : SrvCfg) (db : IPDB Table) (rx : Rx) (o : HOracle) (a : Nat)
+    (hx : db.s.Exclusive o.t0) (hck : o.t0 ≤ o.t1 ∧ o.t1 ≤ o.t2) (hl : 0 ≤ c.leaseNs)
+    (h : (handleV tableStore c db rx o).2 = .ack a) :
+    (∃ b, (handleV tableStore c db rx o).1.s.liveIp o.t2 a = some b ∧ o.t2 + c.leaseNs ≤ b.exp) ∧
+    (leaseSecs c.leaseNs : Int) * 1000000000 ≤ c.leaseNs ∧
+    (c.leaseNs / 1000000000 < 4294967296 → c.leaseNs < ((leaseSecs c.leaseNs : Int) + 1) * 1000000000) := by
+  refine ⟨?_, leaseSecs_le _ hl, leaseSecs_lt _ hl⟩
+  obtain ⟨want, -, hwa, -, -, hu, hv⟩ := ack_inv tableStore c db rx o a h
+  have hg := getDuid_table_fst db o.t0 rx.msg.chaddr (decodeOptions rx.msg.options).clientIdentifier
+  have hv1 := fst_of_eq hv
+  rw [hg, lookupByDuid_table_fst db] at hu hv1
+  rw [hv1]
+  have hx2 : db.s.Exclusive o.t2 := Ipdb.exclusive_mono hx (by omega)
+  obtain ⟨n, b, hn, hb, -, hexp, -⟩ := Ipdb.update_effect db o.t2 _ _ c.leaseNs hx2 hu
+  have hna : n = a := by
+    rw [toUip_some_ok db _ n hn, ← hwa, ip4_ofNat_toNat]
+  subst hna
+  exact ⟨b, hb, hexp⟩
+
+/-! ## C07: options -/
+
+/-- Verbatim copies of the definitions of `Props/C07.lean`. -/
+def effRouter (c : SrvCfg) (mac : Bytes) : Option Ip4 :=
+  match c.override? mac with | some o => (match o.router with | some r => some r | none => c.router) | none => c.router
+def effDns (c : SrvCfg) (mac : Bytes) : List Ip4 :=
+  match c.override? mac with | some o => (if o.dns = [] then c.dns else o.dns) | none => c.dns
+def effNtp (c : SrvCfg) (mac : Bytes) : List Ip4 :=
+  match c.override? mac with | some o => (if o.ntp = [] then c.ntp else o.ntp) | none => c.ntp
+
+theorem isEmpty_ite {α β : Type} (l : List α) (a b : β) : (if l.isEmpty = true then a else b) = (if l = [] then a else b) := by
+  cases l <;> rfl
+
+theorem options_spec (c : SrvCfg) (mac : Bytes) :
+    c.dhcpOptions mac =
+      [optLease (leaseSecs c.leaseNs), optSubnetMask c.mask]
+      ++ (match effRouter c mac with | some r => [optRouter (some r)] | none => [])
+      ++ (if effDns c mac = [] then [] else [optDNS (effDns c mac)])
+      ++ (if effNtp c mac = [] then [] else [optNTP (effNtp c mac)])
+      ++ (if c.domain = [] then [] else [optDomainName c.domain])
+      ++ (match c.override? mac with | some o => (if o.hostname = [] then [] else [optHostname o.hostname]) | none => []) := by
+  unfold SrvCfg.dhcpOptions effRouter effDns effNtp
+  cases c.override? mac with
+  | none =>
+    simp only [Option.bind_none, isEmpty_ite]
+    cases c.router <;> rfl
+  | some o =>
+    simp only [Option.bind_some, isEmpty_ite]
+    cases o.router <;> cases c.router <;> rfl
+
+theorem chunks4_flatten : ∀ (ips : List Ip4) (f : Nat), 4 * ips.length ≤ f →
+    chunks4 f (ips.map Ip4.bytes).flatten = ips := by
+  intro ips
+  induction ips with
+  | nil => intro f _; cases f <;> rfl
+  | cons i r ih =>
+    intro f hf
+    obtain ⟨a, b, c, d⟩ := i
+    rw [List.length_cons] at hf
+    match f, hf with
+    | f + 1, hf =>
+      show chunks4 (f + 1) (a :: b :: c :: d :: (r.map Ip4.bytes).flatten) = _
+      rw [chunks4, ih f (by omega)]
+
+theorem flatten_len (ips : List Ip4) : (ips.map Ip4.bytes).flatten.length = 4 * ips.length := by
+  induction ips with
+  | nil => rfl
+  | cons i r ih =>
+    show (i.bytes ++ (r.map Ip4.bytes).flatten).length = _
+    rw [List.length_append, ih, List.length_cons]; simp only [Ip4.bytes, List.length_cons, List.length_nil]; omega
+
+theorem optIPs_some_data (code : UInt8) (ips : List Ip4) : (optIPs code (ips.map some)).data = (ips.map Ip4.bytes).flatten := by
+  simp only [optIPs, List.map_map]; rfl
+
+theorem toV4A_ips (ips : List Ip4) (h : ips ≠ []) : toV4A (ips.map Ip4.bytes).flatten = ips := by
+  unfold toV4A
+  have hl := flatten_len ips
+  have : 0 < ips.length := List.length_pos_iff.2 h
+  rw [if_pos ⟨by omega, by omega⟩, hl]
+  exact chunks4_flatten ips _ (Nat.le_refl _)
+
+theorem applyOpt_51 (d : DecodedOptions) (x : Bytes) : applyOpt d ⟨51, x⟩ = { d with leaseSecs := toSecs x } := rfl
+theorem applyOpt_1 (d : DecodedOptions) (x : Bytes) : applyOpt d ⟨1, x⟩ = { d with subnetMask := toNetmask x } := rfl
+theorem applyOpt_3 (d : DecodedOptions) (x : Bytes) : applyOpt d ⟨3, x⟩ = { d with routers := toV4A x } := rfl
+theorem applyOpt_6 (d : DecodedOptions) (x : Bytes) : applyOpt d ⟨6, x⟩ = { d with dns := toV4A x } := rfl
+theorem applyOpt_15 (d : DecodedOptions) (x : Bytes) : applyOpt d ⟨15, x⟩ = { d with domainName := x } := rfl
+theorem applyOpt_42 (d : DecodedOptions) (x : Bytes) : applyOpt d ⟨42, x⟩ = d := rfl
+theorem applyOpt_12 (d : DecodedOptions) (x : Bytes) : applyOpt d ⟨12, x⟩ = d := rfl
+theorem applyOpt_53 (d : DecodedOptions) (x : Bytes) : applyOpt d ⟨53, x⟩ = { d with messageType := toUint8 x } := rfl
+theorem applyOpt_54 (d : DecodedOptions) (x : Bytes) : applyOpt d ⟨54, x⟩ = { d with serverIdentifier := toV4 x } := rfl
+
+theorem seg_router (d : DecodedOptions) (r : Ip4) :
+    [optRouter (some r)].foldl applyOpt d = { d with routers := [r] } := by
+  show applyOpt d ⟨3, ([r].map Ip4.bytes).flatten⟩ = _
+  rw [applyOpt_3, toV4A_ips [r] (by simp)]
+
+theorem seg_dns (d : DecodedOptions) (l : List Ip4) :
+    (if l = [] then [] else [optDNS l]).foldl applyOpt d = { d with dns := if l = [] then d.dns else l } := by
+  by_cases h : l = []
+  · rw [if_pos h, if_pos h]; rfl
+  · rw [if_neg h, if_neg h]
+    show applyOpt d ⟨6, (optIPs 6 (l.map some)).data⟩ = _
+    rw [applyOpt_6, optIPs_some_data, toV4A_ips l h]
+
+theorem seg_ntp (d : DecodedOptions) (l : List Ip4) :
+    (if l = [] then [] else [optNTP l]).foldl applyOpt d = d := by
+  by_cases h : l = []
+  · rw [if_pos h]; rfl
+  · rw [if_neg h]; rfl
+
+theorem seg_dom (d : DecodedOptions) (x : Bytes) :
+    (if x = [] then [] else [optDomainName x]).foldl applyOpt d = { d with domainName := if x = [] then d.domainName else x } := by
+  by_cases h : x = []
+  · rw [if_pos h, if_pos h]; rfl
+  · rw [if_neg h, if_neg h]; rfl
+
+theorem seg_host (d : DecodedOptions) (x : Bytes) :
+    (if x = [] then [] else [optHostname x]).foldl applyOpt d = d := by
+  by_cases h : x = []
+  · rw [if_pos h]; rfl
+  · rw [if_neg h]; rfl
+
+theorem toSecs_put32 (n : Nat) (h : n < 4294967296) : toSecs (put32 n) = n := by
+  have := Dhcp.be32_put32 h []
+  rw [List.append_nil] at this
+  exact this
+
+set_option linter.unusedVariables false in
+theorem options_decoded (c : SrvCfg) (mac : Bytes) (hm : c.mask.length = 4) (hl : 0 ≤ c.leaseNs)
+    (hls : c.leaseNs / 1000000000 < 4294967296) :
+    let d := decodeOptions (c.dhcpOptions mac)
+    d.leaseSecs = (c.leaseNs / 1000000000).toNat ∧ d.subnetMask = Ip4.ofBytes? c.mask ∧
+    d.routers = (match effRouter c mac with | some r => [r] | none => []) ∧ d.dns = effDns c mac ∧
+    d.domainName = c.domain := by
+  have hsecs : leaseSecs c.leaseNs = (c.leaseNs / 1000000000).toNat := by unfold leaseSecs; omega
+  have h2 : [optLease (leaseSecs c.leaseNs), optSubnetMask c.mask].foldl applyOpt {} =
+      { leaseSecs := toSecs (put32 (leaseSecs c.leaseNs)), subnetMask := toNetmask c.mask } := rfl
+  dsimp only
+  rw [options_spec]
+  unfold decodeOptions
+  rw [List.foldl_append, List.foldl_append, List.foldl_append, List.foldl_append, List.foldl_append, h2]
+  generalize effRouter c mac = r
+  generalize effDns c mac = dns
+  generalize effNtp c mac = ntp
+  generalize c.override? mac = ov
+  have hs2 := toSecs_put32 (leaseSecs c.leaseNs) (by rw [hsecs]; omega)
+  cases r <;> cases ov <;> dsimp only [List.foldl_nil]
+  all_goals
+    try rw [seg_host]
+    rw [seg_dom, seg_ntp, seg_dns]
+    try rw [seg_router]
+    dsimp only [List.foldl_nil]
+    rw [hs2, hsecs]
+    refine ⟨rfl, rfl, rfl, ?_, ?_⟩
+    · by_cases h : dns = []
+      · rw [if_pos h, h]
+      · rw [if_neg h]
+    · by_cases h : c.domain = []
+      · rw [if_pos h, h]
+      · rw [if_neg h]
+
+theorem mem_ite_single {α β : Type} {l : List α} {x o : β} (h : o ∈ (if l = [] then [] else [x])) : o = x ∧ l ≠ [] := by
+  by_cases hl : l = []
+  · rw [if_pos hl] at h; cases h
+  · rw [if_neg hl] at h; exact ⟨List.mem_singleton.1 h, hl⟩
+
+theorem len_ite_single {α β : Type} (l : List α) (x : β) : (if l = [] then [] else [x]).length ≤ 1 := by
+  by_cases hl : l = []
+  · rw [if_pos hl]; exact Nat.zero_le _
+  · rw [if_neg hl]; exact Nat.le_refl _
+
+theorem override_mem (c : SrvCfg) (mac : Bytes) (o : Override) (h : c.override? mac = some o) : o ∈ c.overrides :=
+  List.mem_of_find?_eq_some h
+
+theorem effDns_le (c : SrvCfg) (hc : CfgWf c) (mac : Bytes) : (effDns c mac).length ≤ 63 := by
+  unfold effDns
+  cases h : c.override? mac with
+  | none => exact hc.dns
+  | some o =>
+    dsimp only
+    split
+    · exact hc.dns
+    · exact (hc.ov o (override_mem c mac o h)).1
+
+theorem effNtp_le (c : SrvCfg) (hc : CfgWf c) (mac : Bytes) : (effNtp c mac).length ≤ 63 := by
+  unfold effNtp
+  cases h : c.override? mac with
+  | none => exact hc.ntp
+  | some o =>
+    dsimp only
+    split
+    · exact hc.ntp
+    · exact (hc.ov o (override_mem c mac o h)).2.1
+
+theorem optIPs_some_len (code : UInt8) (l : List Ip4) : (optIPs code (l.map some)).data.length = 4 * l.length := by
+  rw [optIPs_some_data, flatten_len]
+
+/-- Codes and sizes of the configured options. -/
+def OptOk (o : Opt) : Prop :=
+  (o.code = 51 ∨ o.code = 1 ∨ o.code = 3 ∨ o.code = 6 ∨ o.code = 42 ∨ o.code = 15 ∨ o.code = 12) ∧ o.data.length ≤ 255
+
+def routerSeg (r : Option Ip4) : List Opt := match r with | some r => [optRouter (some r)] | none => []
+def hostSeg (ov : Option Override) : List Opt :=
+  match ov with | some o => (if o.hostname = [] then [] else [optHostname o.hostname]) | none => []
+
+theorem options_spec' (c : SrvCfg) (mac : Bytes) :
+    c.dhcpOptions mac =
+      [optLease (leaseSecs c.leaseNs), optSubnetMask c.mask] ++ routerSeg (effRouter c mac)
+      ++ (if effDns c mac = [] then [] else [optDNS (effDns c mac)])
+      ++ (if effNtp c mac = [] then [] else [optNTP (effNtp c mac)])
+      ++ (if c.domain = [] then [] else [optDomainName c.domain]) ++ hostSeg (c.override? mac) := by
+  rw [options_spec]
+  cases effRouter c mac <;> cases c.override? mac <;> rfl
+
+theorem routerSeg_props (r : Option Ip4) : (routerSeg r).length ≤ 1 ∧ ∀ o ∈ routerSeg r, OptOk o := by
+  cases r with
+  | none => exact ⟨Nat.zero_le _, fun o h => by cases h⟩
+  | some r =>
+    refine ⟨Nat.le_refl _, fun o h => ?_⟩
+    rw [List.mem_singleton.1 h]
+    exact ⟨Or.inr (Or.inr (Or.inl rfl)), by show (4 : Nat) ≤ 255; decide⟩
+
+theorem hostSeg_props (ov : Option Override) (hh : ∀ o, ov = some o → o.hostname.length ≤ 255) :
+    (hostSeg ov).length ≤ 1 ∧ ∀ o ∈ hostSeg ov, OptOk o := by
+  cases ov with
+  | none => exact ⟨Nat.zero_le _, fun o h => by cases h⟩
+  | some ovr =>
+    refine ⟨len_ite_single _ _, fun o h => ?_⟩
+    rw [(mem_ite_single h).1]
+    exact ⟨Or.inr (Or.inr (Or.inr (Or.inr (Or.inr (Or.inr rfl))))), hh ovr rfl⟩
+
+theorem dhcpOptions_props (c : SrvCfg) (hc : CfgWf c) (mac : Bytes) :
+    (c.dhcpOptions mac).length ≤ 7 ∧ ∀ o ∈ c.dhcpOptions mac, OptOk o := by
+  rw [options_spec']
+  have hd := effDns_le c hc mac
+  have hn := effNtp_le c hc mac
+  have hR := routerSeg_props (effRouter c mac)
+  have hH := hostSeg_props (c.override? mac) (fun o h => (hc.ov o (override_mem c mac o h)).2.2)
+  generalize effDns c mac = dns at *
+  generalize effNtp c mac = ntp at *
+  constructor
+  · simp only [List.length_append, List.length_cons, List.length_nil]
+    have h1 := len_ite_single dns (optDNS dns)
+    have h2 := len_ite_single ntp (optNTP ntp)
+    have h3 := len_ite_single c.domain (optDomainName c.domain)
+    have h4 := hR.1
+    have h5 := hH.1
+    omega
+  · intro o ho
+    simp only [List.mem_append] at ho
+    rcases ho with ((((ho | ho) | ho) | ho) | ho) | ho
+    · rcases List.mem_cons.1 ho with rfl | ho
+      · exact ⟨Or.inl rfl, by show (4 : Nat) ≤ 255; decide⟩
+      · rw [List.mem_singleton.1 ho]
+        exact ⟨Or.inr (Or.inl rfl), by show c.mask.length ≤ 255; rw [hc.mask]; decide⟩
+    · exact hR.2 o ho
+    · rw [(mem_ite_single ho).1]
+      exact ⟨Or.inr (Or.inr (Or.inr (Or.inl rfl))), by rw [optDNS, optIPs_some_len]; omega⟩
+    · rw [(mem_ite_single ho).1]
+      exact ⟨Or.inr (Or.inr (Or.inr (Or.inr (Or.inl rfl)))), by rw [optNTP, optIPs_some_len]; omega⟩
+    · rw [(mem_ite_single ho).1]
+      exact ⟨Or.inr (Or.inr (Or.inr (Or.inr (Or.inr (Or.inl rfl))))), hc.domain⟩
+    · exact hH.2 o ho
+
+/-! ## C06 -/
+
+theorem set_done_facts {l : List Pending} {i : Nat} {p : Pending} (hp : l[i]? = some p) (hne : p ≠ Pending.done) :
+    (l.set i Pending.done)[i]? = some Pending.done ∧ l[i]? ≠ some Pending.done ∧
+      ∀ j, j ≠ i → (l.set i Pending.done)[j]? = l[j]? := by
+  obtain ⟨hlt, -⟩ := List.getElem?_eq_some_iff.1 hp
+  refine ⟨by rw [List.getElem?_set_self hlt], ?_, fun j hj => List.getElem?_set_ne (Ne.symm hj)⟩
+  rw [hp]; intro h; injection h with h; exact hne h
+
+theorem at_most_one_reply {σ : Type} (S : Store σ) (c : SrvCfg) (s : Sys σ) (e : Ev) :
+    (s.step S c e).sent = s.sent ∨
+      ∃ (x : Sent) (i : Nat), (s.step S c e).sent = x :: s.sent ∧ (s.step S c e).pend[i]? = some Pending.done ∧ s.pend[i]? ≠ some Pending.done ∧
+        (∀ j, j ≠ i → (s.step S c e).pend[j]? = s.pend[j]?) := by
+  cases e with
+  | recv t b =>
+    left
+    rw [Sys.step]
+    refine opq (todo c (σ := σ)) ?_; intro tdo
+    refine opq (getDuid S) ?_; intro gd
+    split
+    · dsimp only; split <;> rfl
+    · rfl
+  | find i t perm orc tEnd =>
+    left
+    rw [Sys.step]
+    refine opq (IPDB.findIP S) ?_; intro fnd
+    split
+    · dsimp only; split <;> rfl
+    · rfl
+  | hold i t =>
+    rw [Sys.step]
+    refine opq (IPDB.updateClient S) ?_; intro upd
+    split
+    · rename_i rx duid a hp
+      dsimp only
+      generalize upd s.db t (some (Ip4.ofNat a)) duid offerHoldNs = u
+      rcases u with ⟨u1, e | _⟩
+      · left; rfl
+      · right
+        obtain ⟨h1, h2, h3⟩ := set_done_facts hp (by intro h; cases h)
+        exact ⟨_, i, rfl, h1, h2, h3⟩
+    · left; rfl
+  | look i t probeFree =>
+    rw [Sys.step]
+    refine opq (IPDB.lookupByDuid S) ?_; intro lk
+    refine opq Ip4.toNat ?_; intro tn
+    split
+    · rename_i rx duid want hp
+      dsimp only
+      obtain ⟨h1, h2, h3⟩ := set_done_facts hp (by intro h; cases h)
+      generalize lk s.db t duid = l
+      rcases l with ⟨l1, e | lease⟩
+      · right; exact ⟨_, i, rfl, h1, h2, h3⟩
+      · dsimp only
+        split
+        · right; exact ⟨_, i, rfl, h1, h2, h3⟩
+        · split
+          · right; exact ⟨_, i, rfl, h1, h2, h3⟩
+          · left; rfl
+    · left; rfl
+  | lease i t =>
+    rw [Sys.step]
+    refine opq (IPDB.updateClient S) ?_; intro upd
+    split
+    · rename_i rx duid lease hp
+      dsimp only
+      generalize upd s.db t (some (Ip4.ofNat lease)) duid c.leaseNs = u
+      rcases u with ⟨u1, e | _⟩
+      · left; rfl
+      · right
+        obtain ⟨h1, h2, h3⟩ := set_done_facts hp (by intro h; cases h)
+        exact ⟨_, i, rfl, h1, h2, h3⟩
+    · left; rfl
+
+theorem set_other {l : List Pending} {i j : Nat} {p q : Pending} (hi : l[i]? = some Pending.done) (hj : l[j]? = some p)
+    (hne : p ≠ Pending.done) : (l.set j q)[i]? = some Pending.done := by
+  have hji : j ≠ i := by
+    rintro rfl; rw [hj] at hi; injection hi with hi; exact hne hi
+  rw [List.getElem?_set_ne hji, hi]
+
+theorem append_keeps {l : List Pending} {i : Nat} {p : Pending} (x : Pending) (hi : l[i]? = some p) : (l ++ [x])[i]? = some p := by
+  obtain ⟨hlt, -⟩ := List.getElem?_eq_some_iff.1 hi
+  rw [List.getElem?_append_left hlt, hi]
+
+theorem done_is_final {σ : Type} (S : Store σ) (c : SrvCfg) (s : Sys σ) (e : Ev) (i : Nat) (h : s.pend[i]? = some Pending.done) :
+    (s.step S c e).pend[i]? = some Pending.done := by
+  cases e with
+  | recv t b =>
+    rw [Sys.step]
+    refine opq (todo c (σ := σ)) ?_; intro tdo
+    refine opq (getDuid S) ?_; intro gd
+    split
+    · dsimp only
+      split
+      · exact h
+      · exact append_keeps _ h
+      · exact append_keeps _ h
+    · exact h
+  | find j t perm orc tEnd =>
+    rw [Sys.step]
+    refine opq (IPDB.findIP S) ?_; intro fnd
+    split
+    · rename_i rx duid hp
+      dsimp only
+      split <;> exact set_other h hp (by intro hh; cases hh)
+    · exact h
+  | hold j t =>
+    rw [Sys.step]
+    refine opq (IPDB.updateClient S) ?_; intro upd
+    split
+    · rename_i rx duid a hp
+      dsimp only
+      split <;> exact set_other h hp (by intro hh; cases hh)
+    · exact h
+  | look j t probeFree =>
+    rw [Sys.step]
+    refine opq (IPDB.lookupByDuid S) ?_; intro lk
+    refine opq Ip4.toNat ?_; intro tn
+    split
+    · rename_i rx duid want hp
+      dsimp only
+      have hs := fun q => set_other (q := q) h hp (by intro hh; cases hh)
+      split
+      · exact hs _
+      · split
+        · exact hs _
+        · split
+          · exact hs _
+          · exact hs _
+    · exact h
+  | lease j t =>
+    rw [Sys.step]
+    refine opq (IPDB.updateClient S) ?_; intro upd
+    split
+    · rename_i rx duid lease hp
+      dsimp only
+      split <;> exact set_other h hp (by intro hh; cases hh)
+    · exact h
+
+/-! ### C06 / C07: what is on the wire -/
+
+/-- Everything the receiver sees of a frame built by `assembleUdp`. -/
+theorem udp_frame_wire (src dst : Ip4) (P : Bytes) (hl : 20 + 8 + P.length ≤ 65535) :
+    ∃ ip udp, decodeIPv4 (assembleUdp src dst P) = .ok ip ∧ decodeUDP ip.data = .ok udp ∧ udp.data = P ∧
+      udp.srcPort = 67 ∧ udp.dstPort = 68 ∧ ip.src = some src ∧ ip.dst = some dst ∧ ip.proto = 0x11 ∧
+      IpHeaderVerifies (assembleUdp src dst P) ∧ UdpVerifies src dst 0x11 ((assembleUdp src dst P).drop 20) := by
+  unfold assembleUdp
+  generalize hU : ({ srcPort := 67, dstPort := 68, data := P } : UDP) = U
+  generalize hH : ({ ident := 0, flags := 0, ttl := 64, proto := 0x11, src := some src, dst := some dst, data := U.assemble } : IPv4) = H
+  have hUd : U.data = P := by rw [← hU]
+  have hUs : U.srcPort = 67 := by rw [← hU]
+  have hUp : U.dstPort = 68 := by rw [← hU]
+  have hd : H.data = U.assemble := by rw [← hH]
+  have hp : H.proto = 0x11 := by rw [← hH]
+  have hi : H.ident = 0 := by rw [← hH]
+  have hf : H.flags = 0 := by rw [← hH]
+  have hs : H.src = some src := by rw [← hH]
+  have hdst : H.dst = some dst := by rw [← hH]
+  have hlen : H.data.length = 8 + P.length := by rw [hd, Wire.udp_assemble_length, hUd]
+  have hUl : U.data.length = P.length := by rw [hUd]
+  obtain ⟨cs, hdec⟩ := Wire.decode_assemble_ip H (by omega) (by omega) (by omega)
+  have hudp := Wire.decode_udp_inside_ip H U hd (by omega) (by omega) (by omega)
+  have hv := Wire.udp_checksum_verifies H U hd hp (by omega)
+  rw [hs, hdst, hp] at hv
+  refine ⟨_, U, hdec, hudp, hUd, hUs, hUp, ?_, ?_, hp, Wire.ip_checksum_verifies H, hv⟩
+  · show some (optIp H.src) = some src
+    rw [hs]; rfl
+  · show some (optIp H.dst) = some dst
+    rw [hdst]; rfl
+
+/-! ### the DHCP message inside a reply -/
+
+def padMsg (m : Msg) : Msg := { m with sname := List.replicate 64 0, file := List.replicate 128 0 }
+
+theorem assemble_pad (m : Msg) (hs : m.sname = []) (hf : m.file = []) : m.assemble = (padMsg m).assemble := by
+  have e1 : copyInto 64 ([] : Bytes) = copyInto 64 (List.replicate 64 0) := by
+    rw [Dhcp.copyInto_self List.length_replicate]; simp [copyInto]
+  have e2 : copyInto 128 ([] : Bytes) = copyInto 128 (List.replicate 128 0) := by
+    rw [Dhcp.copyInto_self List.length_replicate]; simp [copyInto]
+  unfold Msg.assemble Msg.header padMsg
+  rw [hs, hf]
+  dsimp only
+  rw [e1, e2]
+
+theorem optsWire_length_le : ∀ (l : List Opt), (∀ o ∈ l, o.data.length ≤ 255) → (optsWire l).length ≤ 257 * l.length := by
+  intro l
+  induction l with
+  | nil => intro _; exact Nat.le_refl _
+  | cons o r ih =>
+    intro h
+    have h1 := h o List.mem_cons_self
+    have h2 := ih (fun o' ho' => h o' (List.mem_cons_of_mem _ ho'))
+    simp only [optsWire, Opt.wire, List.length_append, List.length_cons, List.length_nil]
+    omega
+
+theorem assemble_length (m : Msg) (hne : m.options ≠ []) : m.assemble.length = 241 + (optsWire m.options).length := by
+  rw [Dhcp.assemble_eq m hne]
+  have hA : (Dhcp.hdrA m).length = 28 := rfl
+  simp only [Dhcp.tailB, List.length_append, hA, Dhcp.copyInto_length, List.length_cons, List.length_nil]
+  have : (put32 m.cookie).length = 4 := rfl
+  omega
+
+/-- Round trip for the messages the server builds (empty `sname` / `file`). -/
+theorem reply_decode (M : Msg) (hs : M.sname = []) (hf : M.file = []) (hx : M.xid < 4294967296) (hsec : M.secs < 65536)
+    (hfl : M.flags < 65536) (hck : M.cookie < 4294967296) (hch : M.chaddr.length ≤ 16) (hne : M.options ≠ [])
+    (ho : ∀ o ∈ M.options, o.code ≠ 0 ∧ o.code ≠ 0xff ∧ o.data.length ≤ 255) :
+    decode M.assemble = .ok (Spec.Msg.norm (padMsg M)) := by
+  rw [assemble_pad M hs hf]
+  exact Dhcp.decode_assemble (padMsg M)
+    { xid := hx, secs := hsec, flags := hfl, cookie := hck, chaddr := hch, sname := List.length_replicate ..,
+      file := List.length_replicate .., nonempty := hne, opts := ho }
+
+theorem OptOk.wf {o : Opt} (h : OptOk o) : o.code ≠ 0 ∧ o.code ≠ 0xff ∧ o.data.length ≤ 255 := by
+  obtain ⟨hc, hl⟩ := h
+  refine ⟨?_, ?_, hl⟩ <;> rcases hc with h | h | h | h | h | h | h <;> rw [h] <;> decide
+
+theorem OptOk.not5354 {o : Opt} (h : OptOk o) : o.code ≠ 53 ∧ o.code ≠ 54 := by
+  obtain ⟨hc, -⟩ := h
+  constructor <;> rcases hc with h | h | h | h | h | h | h <;> rw [h] <;> decide
+
+theorem applyOpt_keeps (d : DecodedOptions) (o : Opt) (h : o.code ≠ 53 ∧ o.code ≠ 54) :
+    (applyOpt d o).messageType = d.messageType ∧ (applyOpt d o).serverIdentifier = d.serverIdentifier := by
+  unfold applyOpt
+  by_cases h1 : o.code = 1
+  · rw [if_pos h1]; exact ⟨rfl, rfl⟩
+  rw [if_neg h1]
+  by_cases h3 : o.code = 3
+  · rw [if_pos h3]; exact ⟨rfl, rfl⟩
+  rw [if_neg h3]
+  by_cases h6 : o.code = 6
+  · rw [if_pos h6]; exact ⟨rfl, rfl⟩
+  rw [if_neg h6]
+  by_cases h15 : o.code = 15
+  · rw [if_pos h15]; exact ⟨rfl, rfl⟩
+  rw [if_neg h15]
+  by_cases h28 : o.code = 28
+  · rw [if_pos h28]; exact ⟨rfl, rfl⟩
+  rw [if_neg h28]
+  by_cases h50 : o.code = 50
+  · rw [if_pos h50]; exact ⟨rfl, rfl⟩
+  rw [if_neg h50]
+  by_cases h51 : o.code = 51
+  · rw [if_pos h51]; exact ⟨rfl, rfl⟩
+  rw [if_neg h51]
+  by_cases h53 : o.code = 53
+  · exact absurd h53 h.1
+  rw [if_neg h53]
+  by_cases h57 : o.code = 57
+  · rw [if_pos h57]; exact ⟨rfl, rfl⟩
+  rw [if_neg h57]
+  by_cases h26 : o.code = 26
+  · rw [if_pos h26]; exact ⟨rfl, rfl⟩
+  rw [if_neg h26]
+  by_cases h54 : o.code = 54
+  · exact absurd h54 h.2
+  rw [if_neg h54]
+  by_cases h56 : o.code = 56
+  · rw [if_pos h56]; exact ⟨rfl, rfl⟩
+  rw [if_neg h56]
+  by_cases h58 : o.code = 58
+  · rw [if_pos h58]; exact ⟨rfl, rfl⟩
+  rw [if_neg h58]
+  by_cases h59 : o.code = 59
+  · rw [if_pos h59]; exact ⟨rfl, rfl⟩
+  rw [if_neg h59]
+  by_cases h61 : o.code = 61
+  · rw [if_pos h61]; exact ⟨rfl, rfl⟩
+  rw [if_neg h61]
+  by_cases h55 : o.code = 55
+  · rw [if_pos h55]; exact ⟨rfl, rfl⟩
+  rw [if_neg h55]
+  exact ⟨rfl, rfl⟩
+
+theorem foldl_keeps : ∀ (l : List Opt) (d : DecodedOptions), (∀ o ∈ l, o.code ≠ 53 ∧ o.code ≠ 54) →
+    (l.foldl applyOpt d).messageType = d.messageType ∧ (l.foldl applyOpt d).serverIdentifier = d.serverIdentifier := by
+  intro l
+  induction l with
+  | nil => intro d _; exact ⟨rfl, rfl⟩
+  | cons o r ih =>
+    intro d h
+    have h1 := applyOpt_keeps d o (h o List.mem_cons_self)
+    have h2 := ih (applyOpt d o) (fun o' ho' => h o' (List.mem_cons_of_mem _ ho'))
+    rw [List.foldl_cons]
+    exact ⟨h2.1.trans h1.1, h2.2.trans h1.2⟩
+
+theorem decode_head (k : UInt8) (ip : Ip4) (rest : List Opt) (h : ∀ o ∈ rest, o.code ≠ 53 ∧ o.code ≠ 54) :
+    (decodeOptions ([optType k, optServerIdentifier (some ip)] ++ rest)).messageType = k ∧
+    (decodeOptions ([optType k, optServerIdentifier (some ip)] ++ rest)).serverIdentifier = some ip := by
+  unfold decodeOptions
+  rw [List.foldl_append]
+  have h0 : [optType k, optServerIdentifier (some ip)].foldl applyOpt {} =
+      { messageType := k, serverIdentifier := toV4 (optServerIdentifier (some ip)).data } := rfl
+  have h1 : toV4 (optServerIdentifier (some ip)).data = some ip := by
+    obtain ⟨a, b, c, d⟩ := ip
+    exact (Dhcp.typed_values a b c d).2.2.2.1
+  rw [h0, h1]
+  exact foldl_keeps rest _ h
+
+/-- The message of `AssembleOffer` / `AssembleACK`. -/
+def leaseMsg (kind : ReplyKind) (xid flags : Nat) (selfIp yiaddr : Ip4) (chaddr : Bytes) (opts : List Opt) : Msg :=
+  { op := 2, htype := 1, hops := 0, xid := xid, secs := 0, flags := flags, ciaddr := none, yiaddr := some yiaddr,
+    siaddr := none, giaddr := none, chaddr := chaddr, sname := [], file := [], cookie := 0x63825363,
+    options := [optType kind.code, optServerIdentifier (some selfIp)] ++ opts }
+
+def nakMsg (xid : Nat) (selfIp : Ip4) (chaddr : Bytes) : Msg :=
+  { op := 2, htype := 1, hops := 0, xid := xid, secs := 0, flags := 0, ciaddr := none, yiaddr := none,
+    siaddr := none, giaddr := none, chaddr := chaddr, sname := [], file := [], cookie := 0x63825363,
+    options := [optType 6, optServerIdentifier (some selfIp)] }
+
+theorem leaseFrame_pkt (c : SrvCfg) (kind : ReplyKind) (m : Msg) (y : Ip4) :
+    (leaseFrame c kind m y).pkt =
+      assembleUdp c.selfIp (if m.flags / 32768 % 2 = 1 then Ip4.bcast else y)
+        (leaseMsg kind m.xid m.flags c.selfIp y m.chaddr (c.dhcpOptions m.chaddr)).assemble := rfl
+
+theorem nakFrame_pkt (c : SrvCfg) (m : Msg) :
+    (nakFrame c m).pkt = assembleUdp c.selfIp Ip4.bcast (nakMsg m.xid c.selfIp m.chaddr).assemble := rfl
+
+theorem head_ok (k : UInt8) (ip : Ip4) : ∀ o ∈ [optType k, optServerIdentifier (some ip)],
+    o.code ≠ 0 ∧ o.code ≠ 0xff ∧ o.data.length ≤ 255 := by
+  intro o ho
+  rcases List.mem_cons.1 ho with rfl | ho
+  · exact ⟨by show (53 : UInt8) ≠ 0; decide, by show (53 : UInt8) ≠ 255; decide, by show (1 : Nat) ≤ 255; decide⟩
+  · rw [List.mem_singleton.1 ho]
+    exact ⟨by show (54 : UInt8) ≠ 0; decide, by show (54 : UInt8) ≠ 255; decide, by show (4 : Nat) ≤ 255; decide⟩
+
+/-- The lease message decodes to itself (addresses normalised, `sname` / `file` zero filled) and is short. -/
+theorem leaseMsg_decode (c : SrvCfg) (hc : CfgWf c) (kind : ReplyKind) (m : Msg) (y : Ip4)
+    (hx : m.xid < 4294967296) (hf : m.flags < 65536) (hch : m.chaddr.length ≤ 16) :
+    let M := leaseMsg kind m.xid m.flags c.selfIp y m.chaddr (c.dhcpOptions m.chaddr)
+    decode M.assemble = .ok (Spec.Msg.norm (padMsg M)) ∧ 20 + 8 + M.assemble.length ≤ 65535 := by
+  obtain ⟨hlen, hok⟩ := dhcpOptions_props c hc m.chaddr
+  have hall : ∀ o ∈ [optType kind.code, optServerIdentifier (some c.selfIp)] ++ c.dhcpOptions m.chaddr,
+      o.code ≠ 0 ∧ o.code ≠ 0xff ∧ o.data.length ≤ 255 := by
+    intro o ho
+    rcases List.mem_append.1 ho with ho | ho
+    · exact head_ok _ _ o ho
+    · exact (hok o ho).wf
+  have hne : [optType kind.code, optServerIdentifier (some c.selfIp)] ++ c.dhcpOptions m.chaddr ≠ [] := by
+    intro h; cases h
+  refine ⟨reply_decode _ rfl rfl hx (by show (0 : Nat) < 65536; decide) hf
+    (by show (0x63825363 : Nat) < 4294967296; decide) hch hne hall, ?_⟩
+  rw [assemble_length _ hne]
+  have := optsWire_length_le _ (fun o ho => (hall o ho).2.2)
+  show 20 + 8 + (241 + (optsWire ([optType kind.code, optServerIdentifier (some c.selfIp)] ++ c.dhcpOptions m.chaddr)).length) ≤ 65535
+  rw [List.length_append] at this
+  have h2 : [optType kind.code, optServerIdentifier (some c.selfIp)].length = 2 := rfl
+  omega
+
+theorem nakMsg_decode (c : SrvCfg) (m : Msg) (hx : m.xid < 4294967296) (hch : m.chaddr.length ≤ 16) :
+    let M := nakMsg m.xid c.selfIp m.chaddr
+    decode M.assemble = .ok (Spec.Msg.norm (padMsg M)) ∧ 20 + 8 + M.assemble.length ≤ 65535 := by
+  have hne : [optType 6, optServerIdentifier (some c.selfIp)] ≠ [] := by intro h; cases h
+  refine ⟨reply_decode _ rfl rfl hx (by show (0 : Nat) < 65536; decide)
+    (by show (0 : Nat) < 65536; decide) (by show (0x63825363 : Nat) < 4294967296; decide) hch hne (head_ok _ _), ?_⟩
+  rw [assemble_length _ hne]
+  have := optsWire_length_le _ (fun o ho => (head_ok 6 c.selfIp o ho).2.2)
+  show 20 + 8 + (241 + (optsWire [optType 6, optServerIdentifier (some c.selfIp)]).length) ≤ 65535
+  have h2 : [optType 6, optServerIdentifier (some c.selfIp)].length = 2 := rfl
+  omega
+
+set_option linter.unusedVariables false in
+theorem lease_reply_wire (c : SrvCfg) (hc : CfgWf c) (kind : ReplyKind) (hk : kind ≠ .nak) (m : Msg) (y : Ip4)
+    (hx : m.xid < 4294967296) (hf : m.flags < 65536) (hch : m.chaddr.length ≤ 16) :
+    let f := leaseFrame c kind m y
+    let bc := m.flags / 32768 % 2 = 1
+    ∃ ip udp r, decodeIPv4 f.pkt = .ok ip ∧ decodeUDP ip.data = .ok udp ∧ decode udp.data = .ok r ∧
+      r.op = 2 ∧ r.xid = m.xid ∧ r.flags = m.flags ∧ r.chaddr = m.chaddr ∧ r.yiaddr = some y ∧
+      (decodeOptions r.options).messageType = kind.code ∧ (decodeOptions r.options).serverIdentifier = some c.selfIp ∧
+      udp.srcPort = 67 ∧ udp.dstPort = 68 ∧ ip.src = some c.selfIp ∧ ip.proto = 0x11 ∧
+      ip.dst = some (if bc then Ip4.bcast else y) ∧ f.l2dst = (if bc then bcastMac else m.chaddr) ∧
+      IpHeaderVerifies f.pkt ∧ UdpVerifies c.selfIp (if bc then Ip4.bcast else y) 0x11 (f.pkt.drop 20) := by
+  dsimp only
+  rw [leaseFrame_pkt]
+  obtain ⟨hdec, hlen⟩ := leaseMsg_decode c hc kind m y hx hf hch
+  obtain ⟨h53, h54⟩ := decode_head kind.code c.selfIp (c.dhcpOptions m.chaddr)
+    (fun o ho => ((dhcpOptions_props c hc m.chaddr).2 o ho).not5354)
+  generalize hM : leaseMsg kind m.xid m.flags c.selfIp y m.chaddr (c.dhcpOptions m.chaddr) = M at hdec hlen
+  obtain ⟨ip, udp, h1, h2, h3, h4, h5, h6, h7, h8, h9, h10⟩ := udp_frame_wire c.selfIp
+    (if m.flags / 32768 % 2 = 1 then Ip4.bcast else y) M.assemble hlen
+  refine ⟨ip, udp, Spec.Msg.norm (padMsg M), h1, h2, by rw [h3]; exact hdec, ?_, ?_, ?_, ?_, ?_, ?_, ?_, h4, h5, h6, h8, h7, rfl, h9, h10⟩
+  all_goals subst hM
+  · rfl
+  · rfl
+  · rfl
+  · rfl
+  · rfl
+  · exact h53
+  · exact h54
+
+theorem nak_reply_wire (c : SrvCfg) (m : Msg) (hx : m.xid < 4294967296) (hch : m.chaddr.length ≤ 16) :
+    let f := nakFrame c m
+    ∃ ip udp r, decodeIPv4 f.pkt = .ok ip ∧ decodeUDP ip.data = .ok udp ∧ decode udp.data = .ok r ∧
+      r.op = 2 ∧ r.xid = m.xid ∧ r.chaddr = m.chaddr ∧
+      (decodeOptions r.options).messageType = 6 ∧ (decodeOptions r.options).serverIdentifier = some c.selfIp ∧
+      udp.srcPort = 67 ∧ udp.dstPort = 68 ∧ ip.src = some c.selfIp ∧ ip.dst = some Ip4.bcast ∧ f.l2dst = m.chaddr ∧
+      IpHeaderVerifies f.pkt ∧ UdpVerifies c.selfIp Ip4.bcast 0x11 (f.pkt.drop 20) := by
+  dsimp only
+  rw [nakFrame_pkt]
+  obtain ⟨hdec, hlen⟩ := nakMsg_decode c m hx hch
+  obtain ⟨h53, h54⟩ := decode_head 6 c.selfIp [] (fun o ho => by cases ho)
+  generalize hM : nakMsg m.xid c.selfIp m.chaddr = M at hdec hlen
+  obtain ⟨ip, udp, h1, h2, h3, h4, h5, h6, h7, h8, h9, h10⟩ := udp_frame_wire c.selfIp Ip4.bcast M.assemble hlen
+  refine ⟨ip, udp, Spec.Msg.norm (padMsg M), h1, h2, by rw [h3]; exact hdec, ?_, ?_, ?_, ?_, ?_, h4, h5, h6, h7, rfl, h9, h10⟩
+  all_goals subst hM
+  · rfl
+  · rfl
+  · rfl
+  · exact h53
+  · exact h54
+
+theorem decodedReply_lease (c : SrvCfg) (hc : CfgWf c) (kind : ReplyKind) (m : Msg) (y : Ip4)
+    (hx : m.xid < 4294967296) (hf : m.flags < 65536) (hch : m.chaddr.length ≤ 16) :
+    decodedReply (leaseFrame c kind m y) =
+      some (Spec.Msg.norm (padMsg (leaseMsg kind m.xid m.flags c.selfIp y m.chaddr (c.dhcpOptions m.chaddr)))) := by
+  obtain ⟨hdec, hlen⟩ := leaseMsg_decode c hc kind m y hx hf hch
+  unfold decodedReply
+  rw [leaseFrame_pkt]
+  generalize hM : leaseMsg kind m.xid m.flags c.selfIp y m.chaddr (c.dhcpOptions m.chaddr) = M at hdec hlen ⊢
+  obtain ⟨ip, udp, h1, h2, h3, -⟩ := udp_frame_wire c.selfIp
+    (if m.flags / 32768 % 2 = 1 then Ip4.bcast else y) M.assemble hlen
+  rw [← h3] at hdec
+  simp only [h1, h2, hdec]
+
+theorem offer_ack_agree (c : SrvCfg) (hc : CfgWf c) (m : Msg) (y : Ip4)
+    (hx : m.xid < 4294967296) (hf : m.flags < 65536) (hch : m.chaddr.length ≤ 16) :
+    ∃ r₁ r₂, decodedReply (leaseFrame c .offer m y) = some r₁ ∧ decodedReply (leaseFrame c .ack m y) = some r₂ ∧
+      r₁.options.drop 2 = c.dhcpOptions m.chaddr ∧ r₂.options.drop 2 = c.dhcpOptions m.chaddr ∧
+      r₁.options.drop 1 = r₂.options.drop 1 ∧ r₁.yiaddr = r₂.yiaddr :=
+  ⟨_, _, decodedReply_lease c hc .offer m y hx hf hch, decodedReply_lease c hc .ack m y hx hf hch, rfl, rfl, rfl, rfl⟩
+
+/-! ## C10 -/
+
+theorem rxChain_cases (b : Bytes) :
+    rxChain b = .ok none ∨
+      ∃ v4 udp m, decodeIPv4 b = .ok v4 ∧ decodeUDP v4.data = .ok udp ∧ decode udp.data = .ok m ∧ m.op = 1 ∧
+        rxChain b = .ok (some ⟨optIp v4.src, optIp v4.dst, m⟩) := by
+  cases h1 : decodeIPv4 b with
+  | error e =>
+    cases e with
+    | reject w => left; simp only [rxChain, h1]; rfl
+    | panic s => exact absurd h1 (Wire.decoders_never_panic b s).1
+  | ok v4 =>
+    cases h2 : decodeUDP v4.data with
+    | error e =>
+      cases e with
+      | reject w => left; simp only [rxChain, h1, h2]; rfl
+      | panic s => exact absurd h2 (Wire.decoders_never_panic v4.data s).2.1
+    | ok udp =>
+      cases h3 : decode udp.data with
+      | error e =>
+        cases e with
+        | reject w => left; simp only [rxChain, h1, h2, h3]; rfl
+        | panic s => exact absurd h3 (Dhcp.decode_never_panics udp.data s)
+      | ok m =>
+        by_cases hop : m.op ≠ 1
+        · left; simp only [rxChain, h1, h2, h3, if_pos hop]; rfl
+        · right
+          refine ⟨v4, udp, m, rfl, h2, h3, Decidable.not_not.1 hop, ?_⟩
+          simp only [rxChain, h1, h2, h3, if_neg hop]; rfl
+
+theorem rx_never_panics (b : Bytes) (site : String) : rxChain b ≠ .error (.panic site) := by
+  rcases rxChain_cases b with h | ⟨_, _, _, _, _, _, _, h⟩ <;> (rw [h]; intro hh; cases hh)
+
+theorem rx_total (b : Bytes) : rxChain b = .ok none ∨ ∃ rx, rxChain b = .ok (some rx) ∧ rx.msg.op = 1 := by
+  rcases rxChain_cases b with h | ⟨v4, udp, m, _, _, _, hop, h⟩
+  · exact Or.inl h
+  · exact Or.inr ⟨_, h, hop⟩
+
+theorem junk_is_noop {σ : Type} (S : Store σ) (c : SrvCfg) (s : Sys σ) (t : Int) (b : Bytes) (h : rxChain b = .ok none) :
+    s.step S c (.recv t b) = s := by
+  rw [Sys.step, h]
+
+theorem todo_drop_of_other {σ : Type} (c : SrvCfg) (db : IPDB σ) (rx : Rx)
+    (ht : (decodeOptions rx.msg.options).messageType ≠ 1 ∧ (decodeOptions rx.msg.options).messageType ≠ 3) :
+    todo c db rx = .drop := by
+  unfold todo
+  refine opq (IPDB.inManagedRange (σ := σ)) ?_; intro imr
+  dsimp only
+  split
+  · rfl
+  · split
+    · rfl
+    · rw [if_neg ht.1, if_neg ht.2]
+
+theorem unhandled_is_noop (c : SrvCfg) (s : Sys Table) (t : Int) (b : Bytes) (rx : Rx) (h : rxChain b = .ok (some rx))
+    (ht : (decodeOptions rx.msg.options).messageType ≠ 1 ∧ (decodeOptions rx.msg.options).messageType ≠ 3) :
+    (s.step tableStore c (.recv t b)).db = s.db ∧ (s.step tableStore c (.recv t b)).sent = s.sent ∧
+    (s.step tableStore c (.recv t b)).pend = s.pend := by
+  have hd := todo_drop_of_other c (getDuid tableStore s.db t rx.msg.chaddr (decodeOptions rx.msg.options).clientIdentifier).1 rx ht
+  have hg := getDuid_table_fst s.db t rx.msg.chaddr (decodeOptions rx.msg.options).clientIdentifier
+  rw [Sys.step, h]
+  dsimp only
+  rw [hd]
+  exact ⟨hg, rfl, rfl⟩
+
+theorem junk_interleaving {σ : Type} (S : Store σ) (c : SrvCfg) (s : Sys σ) (evs : List Ev) :
+    Sys.run S c s evs =
+      Sys.run S c s (evs.filter fun e => match e with
+        | .recv _ b => (match rxChain b with | .ok none => false | _ => true)
+        | _ => true) := by
+  induction evs generalizing s with
+  | nil => rfl
+  | cons e rest ih =>
+    cases e with
+    | recv t b =>
+      by_cases h : rxChain b = .ok none
+      · rw [List.filter_cons_of_neg (by simp only [h]; exact Bool.false_ne_true), Sys.run, junk_is_noop S c s t b h]
+        exact ih s
+      · rw [List.filter_cons_of_pos (by
+          dsimp only
+          split
+          · rename_i h'; exact absurd h' h
+          · rfl), Sys.run, Sys.run]
+        exact ih _
+    | find i t perm orc tEnd => rw [List.filter_cons_of_pos rfl, Sys.run, Sys.run]; exact ih _
+    | hold i t => rw [List.filter_cons_of_pos rfl, Sys.run, Sys.run]; exact ih _
+    | look i t p => rw [List.filter_cons_of_pos rfl, Sys.run, Sys.run]; exact ih _
+    | lease i t => rw [List.filter_cons_of_pos rfl, Sys.run, Sys.run]; exact ih _
+
 end PsaDhcp.Proofs.Decision
